@@ -75,6 +75,20 @@ PROPS = {
              "distinct = every enumerated (file, damage, route)",
         exhaustive=True,
     ),
+    "C14": dict(
+        level="model_checking",
+        level_text="TLC generates every physical layout of the scope (1-3 records of pairwise different sizes, 13 types, every "
+                   "permutation of the physical order, every choice of filler length before/between/after from a small set, three "
+                   "filler contents incl. bytes that look like a record header, header length covering the file, index in logical "
+                   "order) with the TLA+ encoder; the real reader's iteration, typed iteration, random access at every entry and "
+                   "shape_count are validated by TLC against the logical record list and against the index-driven reader model",
+        level_note="trusted: TLC and the TLA+ encoder; generator scope (n <= 3, 4 in thorough; filler lengths {0,2,6,16})",
+        technique="behaviour replay: TLC-generated layouts read by the real code, results validated by TLC",
+        mc=[CODEC_MC],
+        stages=[dict(cmd="foreign", spec="Trace_Foreign", gen="Gen_Layouts", quick=dict(chunks=8), thorough=dict(chunks=16))],
+        rule="a case = one generated (.shp, .shx) pair; exhaustive over the generator's scope",
+        exhaustive=True,
+    ),
     "C15": dict(
         level="model_checking",
         level_text="TLC explores every history up to the bound on the reader specification (the set A of allowed iteration starts) "
@@ -141,6 +155,23 @@ PROPS = {
         rule="a case = the bytes left by the real writer (cursor+drop, cursor+finalize, by path) for 0..4 shapes; "
              "the TLA+ strict validator/decoder StrictShp runs on those bytes",
         assumptions=["the strict decoder is the TLA+ operator StrictShp; it shares no code with the library"],
+    ),
+    "C03": dict(
+        level="model_checking",
+        level_text="the independent reference encoder is the TLA+ operator EncodeRecordOpt/EncodeHeader evaluated by TLC: it generates "
+                   "every file of the foreign-layout scope (14 type codes, optional M block present/absent per record, 24/32-byte "
+                   "PointZ, zero parts, zero- and one-vertex parts, zero points, counter-clockwise first rings, unrelated stored "
+                   "boxes, record numbers 0/-1/repeated, null records in typed files, trailing bytes) from abstract models; the "
+                   "real reader's generic, typed and read() results are validated by TLC against the model each file encodes and "
+                   "against the reader model ReadFile on the same bytes; TLC also checks T4_OptionalM on the codec model",
+        level_note="trusted: TLC and the TLA+ encoder; one fixed concretisation of the value ids (StdTables: exact dyadic X/Y, "
+                   "-inf/-MAX/NO_DATA neighbours and a NaN in Z/M); scope of the generator, not random large files",
+        technique="behaviour replay: TLC-generated files (explicit TLA+ encoder) read by the real code, results validated by TLC",
+        mc=[CODEC_MC],
+        stages=[dict(cmd="foreign", spec="Trace_Foreign", gen="Gen_Foreign", quick=dict(chunks=8), thorough=dict(chunks=16))],
+        rule="a case = one generated .shp; enumerated exhaustively over the generator's scope (quick: reduced record numbers, "
+             "special placements and trailing lengths)",
+        exhaustive=True,
     ),
     "C04": dict(
         level="model_checking",
